@@ -139,7 +139,9 @@ def pair_random(vd, tier, sd, tag, pollat=True, probe=False):
         if k % 4 == 3:
             a.append("--small")
         if tier == "thorough" and k % 4 == 2:
+            # long transfers: fewer runs, or the traces run into gigabytes
             a += ["--maxbytes", 600000]
+            a[a.index("--runs") + 1] = 60
         run_harness(exe, a)
         files.append(tf)
     return files
